@@ -112,6 +112,28 @@ def run(ctx):
                                  {"clause": "table-production-not-in-grammar", "kind": kv["kind"]}, True))
             if kv.get("rootsafe") == "true":
                 gram["rootSafe"] = gram.get("rootSafe", 0) + 1
+            cpl = kv.get("complete", "na")
+            cov = kv.get("cover", "na")
+            src = gsrc.get(g, "?")
+            fam = src.split(":")[0]
+            if cov == "true":
+                gram["coverOK"] = gram.get("coverOK", 0) + 1
+                if cpl == "true":
+                    gram["both_halves"] = gram.get("both_halves", 0) + 1
+            if cpl == "true":
+                gram["completeOK"] = gram.get("completeOK", 0) + 1
+            elif cpl.startswith("false"):
+                gram["completeOK_fails"] = gram.get("completeOK_fails", 0) + 1
+            # Grammars the generator accepted without any precedence annotation are LR(1) conflict-free, so
+            # when grammar.json is covered by the canonical productions the table must be complete for them;
+            # the chain / lalr families are built to be in that class, so they must also be covered.
+            by_construction = fam in ("chain", "lalr")
+            if kv.get("kind") == "cfg" and cov != "na" and ((cov == "true" and kv.get("prec") == "false") or by_construction):
+                gram["complete_in_scope"] = gram.get("complete_in_scope", 0) + 1
+                if cpl != "true" or (by_construction and cov != "true"):
+                    viol.append((0, "judge", "the generated table of %s (LR(1) conflict-free: accepted by the generator without precedence) fails the premises of parser_complete: cover=%s complete=%s" % (g, cov, cpl),
+                                 {"case": g, "spec": "%s t:" % src, "result": kv},
+                                 {"clause": "table-incomplete-for-its-grammar", "kind": fam}, True))
             if kv["closed"] == "true":
                 gram["closed"] += 1
             else:
@@ -188,7 +210,11 @@ def run(ctx):
                 "grammar-directed documents for zoo grammars; non-trivial := error-free and the real tree uses >= 3 distinct productions; distinct by hash of (grammar source, string)",
         "samples": samples,
         "grammars": {"tables": gram["tables"], "tableClosed": gram["closed"], "tableSafe": gram.get("tableSafe", 0),
-                     "relOK(premise of parser_sound_per_grammar holds)": gram.get("relOK", 0), "rel_in_scope(failing relOK is a violation)": gram.get("rel_in_scope", 0), "rootSafe(premise of driver_sound; fails only with non-terminal extras)": gram.get("rootSafe", 0), "with_oracle": gram["oracle"],
+                     "relOK(premise of parser_sound_per_grammar holds)": gram.get("relOK", 0), "rel_in_scope(failing relOK is a violation)": gram.get("rel_in_scope", 0), "rootSafe(premise of driver_sound; fails only with non-terminal extras)": gram.get("rootSafe", 0),
+                     "coverOK(premise of grammar_cover holds)": gram.get("coverOK", 0), "completeOK(premise of table_complete holds)": gram.get("completeOK", 0),
+                     "coverOK_and_completeOK(parser_complete and parser_sound both apply)": gram.get("both_halves", 0),
+                     "completeOK_fails(precedence-resolved conflicts, hidden terminal rules)": gram.get("completeOK_fails", 0),
+                     "complete_in_scope(no precedence, covered, or chain/lalr: failing is a violation)": gram.get("complete_in_scope", 0), "with_oracle": gram["oracle"],
                      "oracle_fixpoint": gram["oracle_fixpoint"],
                      "states_min_med_max": [st[0], st[len(st) // 2], st[-1]] if st else [],
                      "language_sizes_up_to_L": sorted(gram["lang_sizes"])[-8:], "generator": stats},
